@@ -185,6 +185,8 @@ fn build_pair(r: &mut Rng, out: &mut String, force_relation: bool) -> &'static s
     writeln!(out, "new b1").unwrap();
     let mode = if r.chance(1, 14) {
         95 // complements
+    } else if r.chance(1, 16) {
+        200 // many chunks
     } else if force_relation {
         40 + r.below(35)
     } else {
@@ -367,6 +369,55 @@ fn build_pair(r: &mut Rng, out: &mut String, force_relation: bool) -> &'static s
             let extra = *r.pick(&[0u64, 0, 1]); // 1: one value belongs to both sides
             writeln!(out, "insert_range b0 in:{} ex:{}", bs, bs + cut).unwrap();
             writeln!(out, "insert_range b1 in:{} in:{}", bs + cut + gap - extra.min(cut + gap), bs + 65535).unwrap();
+            "b1"
+        }
+        // many chunks on one side (33..70 tiny ones), a few on the other: chunk counts that differ by more than 16x,
+        // right-hand chunks identical to / overlapping / absent from the left, adjacent in the left's chunk list, at
+        // its first and last positions (paths chosen by the relative number of chunks; cursors that resume a search)
+        200 => {
+            let n = r.range(33, 70);
+            let k0 = *r.pick(&[0u64, 0, 3, 0xFFFF - n]);
+            let mut big = String::new();
+            let mut vals: Vec<(u64, Vec<u64>)> = Vec::new();
+            for i in 0..n {
+                let k = k0 + i;
+                let mut vs = Vec::new();
+                for _ in 0..r.range(1, 3) {
+                    vs.push((k << 16) + *r.pick(&[0u64, 1, 5, 63, 64, 4095, 65535]));
+                }
+                vs.sort_unstable();
+                vs.dedup();
+                for v in &vs {
+                    write!(big, " {}", v).unwrap();
+                }
+                vals.push((k, vs));
+            }
+            let nsmall = r.range(1, 4);
+            let at = match r.below(4) {
+                0 => 0,
+                1 => n - nsmall.min(n),
+                _ => r.below(n - nsmall + 1),
+            };
+            let mut small = String::new();
+            for j in 0..nsmall {
+                let (k, vs) = &vals[(at + j) as usize];
+                match r.below(5) {
+                    0 | 1 => {
+                        for v in vs {
+                            write!(small, " {}", v).unwrap(); // identical chunk: cancels in xor / sub, stays in and
+                        }
+                    }
+                    2 => write!(small, " {} {}", vs[0], (k << 16) + 7).unwrap(), // overlapping
+                    3 => write!(small, " {}", (k << 16) + 9).unwrap(),           // disjoint inside the same chunk
+                    _ => {}                                                       // not on the right at all
+                }
+            }
+            if r.chance(1, 3) {
+                write!(small, " {}", ((k0 + n) << 16).min(u32::MAX as u64)).unwrap(); // a chunk beyond the left's last
+            }
+            let (l, rr) = if r.chance(2, 3) { ("b0", "b1") } else { ("b1", "b0") };
+            writeln!(out, "from_iter {}{}", l, big).unwrap();
+            writeln!(out, "from_iter {}{}", rr, small).unwrap();
             "b1"
         }
         // one side empty (or both)
